@@ -36,6 +36,7 @@ pub fn answer_kind(kind: &str, lines: &[String], replies: &[String]) -> String {
         "render" => oracle_render(lines),
         "fuzz" => oracle_fuzz(lines),
         "listdel" => oracle_listdel(lines),
+        "saveload" => oracle_saveload(lines),
         _ => "bad-kind".into(),
     }
 }
@@ -711,6 +712,22 @@ fn gen_block(rng: &mut Rng, depth: usize, tag: &mut usize, loopvars: &mut Vec<us
 
 pub fn gen_c01<W: Write>(w: &mut W, tier: &str, seed: u64) {
     let mut rng = Rng::new(seed ^ 0xC01);
+    // line 0 as a branch target of every branching statement, after statements that allocate local labels
+    let zero: Vec<(Vec<&str>, &str)> = vec![
+        (vec!["0 N=N+1:PRINT N;", "10 IF N<3 THEN GOTO 0", "20 PRINT \"DONE\""], " 1  2  3 DONE\nREADY.\n"),
+        (vec!["0 N=N+1:PRINT N;", "10 IF N<3 THEN 0", "20 PRINT \"DONE\""], " 1  2  3 DONE\nREADY.\n"),
+        (vec!["0 N=N+1:PRINT N;", "10 IF N>=3 THEN 20 ELSE 0", "20 PRINT \"DONE\""], " 1  2  3 DONE\nREADY.\n"),
+        (vec!["0 N=N+1:PRINT \"TOP\";N;", "10 FOR I=1 TO 2:PRINT I;:NEXT I", "20 IF N=2 THEN END", "30 GOTO 0"], "TOP 1  1  2 TOP 2  1  2 \nREADY.\n"),
+        (vec!["0 IF S THEN PRINT \"SUB\";:RETURN", "10 WHILE W<2:W=W+1:WEND", "20 S=1:GOSUB 0", "30 PRINT \"BACK\""], "SUBBACK\nREADY.\n"),
+        (vec!["0 N=N+1:IF N>3 THEN END", "10 PRINT N;", "20 ON 1 GOTO 0"], " 1  2  3 \nREADY.\n"),
+        (vec!["0 N=N+1:IF N>2 THEN PRINT \"R\":RETURN", "10 PRINT N;", "20 ON 2 GOSUB 30,0", "25 END", "30 PRINT \"WRONG\""], " 1  2 R\nREADY.\n"),
+        (vec!["0 DATA 7", "10 READ A:PRINT A;", "20 K=K+1:IF K<2 THEN RESTORE 0:GOTO 10"], " 7  7 \nREADY.\n"),
+    ];
+    for (prog, expected) in zero {
+        let mut v = vec![hex(expected)];
+        v.extend(prog.iter().map(|l| l.to_string()));
+        emit(w, "C01", "expectrun", &v, &[]);
+    }
     let n = if tier == "thorough" { 50_000 } else { 1_500 };
     for _ in 0..n {
         let mut tag = 0usize;
@@ -739,7 +756,7 @@ pub fn gen_c01<W: Write>(w: &mut W, tier: &str, seed: u64) {
         }
         let stop = rng.chance(1, 6);
         // BASIC text
-        let start = *rng.pick(&[10u32, 100, 1000]);
+        let start = *rng.pick(&[10u32, 100, 1000, 0, 0, 1]); // line 0 is a line like any other (also as a branch target)
         let step = *rng.pick(&[10u32, 5, 1]);
         let mut em = Emit { lines: vec![], n: start, step };
         let mut sub_ref = vec![];
@@ -1324,6 +1341,24 @@ pub fn gen_c02<W: Write>(w: &mut W, tier: &str, seed: u64) {
             }
         }
     }
+    // promotion in mixed comparisons: a Single against a Double is compared as Doubles (the Single
+    // widened exactly), never the Double narrowed; the same decimal as Single and as Double differ
+    let decs = ["0.7", "0.1", "0.3", "1.1", "16777217", "3.3333333333", "123456.789", "1E-7", "0.5", "2", "-0.7", "-16777217", "1E10", "33554433", "0.2", "9.99999999"];
+    for d in decs {
+        let a: f32 = d.parse().unwrap();
+        let b: f64 = d.parse().unwrap();
+        let (x, y) = (a as f64, b);
+        let t = |c: bool| if c { "-1 " } else { " 0 " };
+        let expected = format!("{}{}{}{}{}{}{}{}{}{}{}{}\nREADY.\n", t(x < y), t(y > x), t(x <= y), t(y >= x), t(x > y), t(y < x), t(x >= y), t(y <= x), t(x == y), t(y == x), t(x != y), t(y != x));
+        let dd = if d.contains('E') { d.replace('E', "D") } else { format!("{}#", d) };
+        let line = format!("A!={}:B#={}:PRINT A!<B#;B#>A!;A!<=B#;B#>=A!;A!>B#;B#<A!;A!>=B#;B#<=A!;A!=B#;B#=A!;A!<>B#;B#<>A!", d, dd);
+        emit(w, "C02", "expectdirect", &[hex(&expected), line], &[]);
+        // and Integer against Single / Double beyond the Single's precision
+        if let Ok(i) = d.parse::<i16>() {
+            let line = format!("A%={}:B#={}.5#:C!={}.5:PRINT A%<B#;B#>A%;A%<C!;C!>A%;A%=B#;A%=C!", i, i, i);
+            emit(w, "C02", "expectdirect", &[hex("-1 -1 -1 -1  0  0 \nREADY.\n"), line], &[]);
+        }
+    }
     let n = if tier == "thorough" { 200_000 } else { 5_000 };
     for i in 0..n {
         let d = 1 + rng.below(if i % 20 == 0 { 7 } else { 4 });
@@ -1357,6 +1392,11 @@ fn oracle_fuzz(lines: &[String]) -> String {
         if let Some(rep) = l.strip_prefix("@REPLY ") {
             // queued answer for the next INPUT (the default answer is "1")
             r.replies.push(rep.to_string());
+            continue;
+        }
+        if let Some(line) = l.strip_prefix("@ENTER ") {
+            // typed but not yet run: the following @INT falls into the middle of it
+            r.rt.enter(line);
             continue;
         }
         if let Some(k) = l.strip_prefix("@INT ") {
@@ -1415,6 +1455,29 @@ pub fn gen_c03<W: Write>(w: &mut W, tier: &str, seed: u64) {
     for c in corpus {
         let v: Vec<String> = c.iter().map(|s| s.to_string()).collect();
         emit(w, "C03", "fuzz", &v, &[]);
+    }
+    // one interrupt stops the interpreter whatever it is in the middle of: listing (direct, or a program
+    // that lists itself for ever), waiting for INPUT / INKEY$, tracing, printing diagnostics, a loop
+    let busy: Vec<Vec<&str>> = vec![
+        vec!["10 LIST", "20 GOTO 10"], vec!["10 LIST:GOTO 10"], vec!["10 LIST 10:LIST:GOTO 10", "20 REM"], vec!["10 PRINT 1:LIST -10", "20 GOTO 10"],
+        vec!["10 INPUT A:GOTO 10"], vec!["10 A$=INKEY$:GOTO 10"], vec!["10 TRON:GOTO 10"], vec!["10 FOR I=1 TO 2 STEP 0:NEXT"], vec!["10 WHILE 1:WEND"],
+        vec!["10 GOSUB 10"], vec!["10 DEF FNA(X)=FNA(X)+1:PRINT FNA(1)"], vec!["10 PRINT \"x\";:GOTO 10"], vec!["10 READ A:RESTORE:GOTO 10", "20 DATA 1"],
+    ];
+    for prog in &busy {
+        for k in [0usize, 1, 2, 3, 4, 5, 7, 10, 50, 333] {
+            let mut v: Vec<String> = prog.iter().map(|s| s.to_string()).collect();
+            v.push("@ENTER RUN".into());
+            v.push(format!("@INT {}", k));
+            v.push("PRINT 7".into());
+            v.push("RUN".into()); // runs away again: the oracle's own interrupt must stop it too
+            emit(w, "C03", "fuzz", &v, &[]);
+        }
+    }
+    for k in [0usize, 1, 2, 3, 5] {
+        for direct in ["LIST", "LIST 10-", "LIST:LIST", "PRINT 1:LIST:PRINT 2", "FOR I=1 TO 9:LIST:NEXT"] {
+            let v: Vec<String> = vec!["10 REM a".into(), "20 REM b".into(), "30 REM c".into(), format!("@ENTER {}", direct), format!("@INT {}", k), "PRINT 7".into()];
+            emit(w, "C03", "fuzz", &v, &[]);
+        }
     }
     // INPUT with hostile replies: quotes, commas, blanks, nothing, non-ASCII, over-long
     let nasty = ["\"", "\"\"", " \" ", ",", "\",", "7, \"", "", " ", "\"\"\"", "\"a", "a\"", "é,\"", "\u{e9}a,b", "\",\"", ",,,,", "1,2,3,4,5,6", "1e999", "&H", "&HFFFFF", "-", "+", ".", "1e", "\u{a0}", "\t"];
@@ -1639,5 +1702,124 @@ pub fn gen_c15<W: Write>(w: &mut W, tier: &str, seed: u64) {
         }
         v.push("LIST".to_string());
         emit(w, "C15", "listdel", &v, &[]);
+    }
+}
+
+// ---------------------------------------------------------------------------------------------
+// C05 through the runtime: whatever the interpreter stores and lists comes back from SAVE + LOAD
+
+/// The lines are typed at the prompt.  SAVE writes the text of every stored line, LOAD feeds every
+/// text to `Listing::load_str`: each must be accepted and the loaded program must list identically.
+fn oracle_saveload(lines: &[String]) -> String {
+    let mut r = Run::new();
+    for l in lines {
+        r.line(l);
+    }
+    let saved = r.listing_text();
+    let mut loaded = basic::mach::Listing::default();
+    for (i, text) in saved.iter().enumerate() {
+        if let Err(e) = loaded.load_str(text) {
+            return fail(format!("LOAD refuses saved line {} ({} bytes, {} characters): {}", i + 1, text.len(), text.chars().count(), e));
+        }
+    }
+    let again: Vec<String> = loaded.lines().map(|l| l.to_string()).collect();
+    if again != saved {
+        let i = saved.iter().zip(again.iter()).position(|(a, b)| a != b).unwrap_or(saved.len().min(again.len()));
+        return fail(format!("after SAVE and LOAD line {} of {} differs: {:?} vs {:?}", i + 1, saved.len(), saved.get(i).map(|s| s.chars().take(60).collect::<String>()), again.get(i).map(|s| s.chars().take(60).collect::<String>())));
+    }
+    // and the loaded program is what a fresh interpreter lists
+    let mut r2 = Run::new();
+    r2.rt.set_listing(loaded, false);
+    r2.idle(5000, 10);
+    if r2.listing_text() != saved {
+        return fail("the loaded program lists differently".into());
+    }
+    "ok".into()
+}
+
+pub fn gen_c05<W: Write>(w: &mut W, tier: &str, seed: u64) {
+    let mut rng = Rng::new(seed ^ 0xC05);
+    // the line length limit with characters of 1..4 bytes, in a string literal and in a remark
+    for ch in ["x", "\u{e9}", "\u{20ac}", "\u{1F600}"] {
+        let b = ch.len();
+        for total in [500usize, 1000, 1016, 1020, 1022, 1023, 1024, 1025, 1026, 1030, 1100, 2048, 4100] {
+            for head in ["20 PRINT \"", "20 REM ", "20 A$=\"", "20 '"] {
+                let k = total.saturating_sub(head.len()) / b;
+                let mut l = format!("{}{}", head, ch.repeat(k));
+                if head.ends_with('"') && rng.chance(1, 2) {
+                    l.push('"');
+                }
+                emit(w, "C05", "saveload", &["10 PRINT 1".to_string(), l.clone(), "30 END".to_string()], &[]);
+                // the same number of CHARACTERS as the byte limit allows
+                let l2 = format!("{}{}", head, ch.repeat(total.saturating_sub(head.len())));
+                emit(w, "C05", "saveload", &["10 PRINT 1".to_string(), l2, "30 END".to_string()], &[]);
+            }
+        }
+    }
+    // a line that grows when it is listed (? -> PRINT, blanks inserted between words) near the limit
+    for n in [150usize, 200, 250, 255, 256, 300, 340, 341, 342, 400] {
+        emit(w, "C05", "saveload", &[format!("10 {}", "?:".repeat(n))], &[]);
+        emit(w, "C05", "saveload", &[format!("10 {}", "?1;".repeat(n))], &[]);
+        emit(w, "C05", "saveload", &[format!("10 X={}1", "1OR".repeat(n))], &[]);
+        emit(w, "C05", "saveload", &[format!("10 IFATHENPRINT{}", "\"\";".repeat(n))], &[]);
+    }
+    let n = if tier == "thorough" { 20_000 } else { 400 };
+    for _ in 0..n {
+        let sz = 1 + rng.below(4);
+        let p = gen_program(&mut rng, sz);
+        let mut v = p.text();
+        if rng.chance(1, 3) {
+            v.push(format!("{} {}", 1 + rng.below(60000), gen_soup(&mut rng)));
+        }
+        if rng.chance(1, 3) {
+            let l = *rng.pick(LINES);
+            v.push(format!("{} {}", 1 + rng.below(60000), mutate(&mut rng, l)));
+        }
+        emit(w, "C05", "saveload", &v, &[]);
+    }
+}
+
+// ---------------------------------------------------------------------------------------------
+// C07: MID$ assignment counts characters and never changes the size of the target
+
+pub fn gen_c07<W: Write>(w: &mut W, tier: &str, seed: u64) {
+    let mut rng = Rng::new(seed ^ 0xC07);
+    let targets = ["PORTLAND, ME", "", "a", "αβγδεζ", "é", "ab日本語cd", "😀x😀y", "xx€€xx€€", "0123456789ABCDEF"];
+    let repls = ["", "z", "po", "é", "λμ", "€€", "😀", "q日", "LONGER THAN THE TARGET STRING", "éa€b😀c"];
+    let fmt_int = |v: usize| format!(" {} ", v);
+    let mut case = |w: &mut W, t: &str, x: &str, n: usize, m: Option<usize>| {
+        let o: Vec<char> = t.chars().collect();
+        let xs: Vec<char> = x.chars().collect();
+        let lim = m.unwrap_or(32767).min(xs.len());
+        let stmt = match m {
+            Some(m) => format!("A$=\"{}\":MID$(A$,{},{})=\"{}\":PRINT \"[\";A$;\"]\";LEN(A$)", t, n, m, x),
+            None => format!("A$=\"{}\":MID$(A$,{})=\"{}\":PRINT \"[\";A$;\"]\";LEN(A$)", t, n, x),
+        };
+        let expected = if n == 0 {
+            "?ILLEGAL FUNCTION CALL; POSITION IS ZERO\nREADY.\n".to_string()
+        } else {
+            let r: String = o.iter().enumerate().map(|(i, c)| if i + 1 >= n && i + 1 - n < lim { xs[i + 1 - n] } else { *c }).collect();
+            format!("[{}]{}\nREADY.\n", r, fmt_int(o.len()))
+        };
+        emit(w, "C07", "expectdirect", &[hex(&expected), stmt], &[]);
+    };
+    for t in targets {
+        let l = t.chars().count();
+        for x in repls {
+            for n in [0usize, 1, 2, 3, l.max(1), l + 1, l + 5] {
+                for m in [None, Some(0usize), Some(1), Some(2), Some(5), Some(255)] {
+                    case(w, t, x, n, m);
+                }
+            }
+        }
+    }
+    let n = if tier == "thorough" { 50_000 } else { 500 };
+    let alphabet: Vec<char> = "abXY09 ,.éßλ€日😀".chars().collect();
+    for _ in 0..n {
+        let t: String = (0..rng.below(20)).map(|_| *rng.pick(&alphabet)).collect();
+        let x: String = (0..rng.below(12)).map(|_| *rng.pick(&alphabet)).collect();
+        let nn = rng.below(24);
+        let m = if rng.chance(1, 2) { None } else { Some(rng.below(15)) };
+        case(w, &t, &x, nn, m);
     }
 }
